@@ -26,7 +26,8 @@ func stdEval() rel.Attr {
 func evalExpr(ctx context.Context, v rel.Value) (rel.Value, error) {
 	switch val := v.(type) {
 	case rel.String, rel.Bytes:
-		evaluated, err := EvaluateExpr(ctx, ".", val.String())
+		// //eval.value is part of the safe library: evaluate with the safe library only
+		evaluated, err := EvalWithScope(ctx, ".", val.String(), SafeStdScope())
 		if err != nil {
 			return nil, err
 		}
